@@ -1,6 +1,6 @@
 (* Props/C15.v — C15: reported line, column and context locate the offending byte.
    Statements only; each is closed by [exact] of a lemma proved under Position/. *)
-From Verif Require Import Common.Base Cursor.Model Position.Model Position.Spec Position.Lemmas Position.Total
+From Verif Require Import Common.Base Cursor.Model Position.Model Position.Spec Position.Lemmas Position.Total Position.LineCol
   Position.Context Position.Caret Position.Proofs.
 
 (* Position never panics and never exhausts its fuel: for every IsGraphic predicate, every byte
@@ -29,6 +29,17 @@ Theorem position_line_col :
                      Done (1 + breaks (runes pre), 1 + len (last_line (runes pre)), ctx)).
 Proof. exact position_line_col_full. Qed.
 Print Assumptions position_line_col.
+
+(* The same for an offset at which valid UTF-8 text ends, WHATEVER bytes follow (the situation of an error at
+   an invalid byte): line and column are those of the valid prefix.  (A prefix ending in \r must not be
+   followed by \n, which would make the offset the inside of a \r\n pair.) *)
+Theorem position_line_col_prefix :
+  forall (graphic : Z -> bool) (pre : list cp) (tail : list Z),
+    Forall cp_ok pre -> (ends_cr (runes pre) = true -> starts_lf tail = false) ->
+    exists ctx, position graphic (bytes pre ++ tail) (len (bytes pre)) =
+                  Done (1 + breaks (runes pre), 1 + len (last_line (runes pre)), ctx).
+Proof. exact LineCol.position_prefix_proof. Qed.
+Print Assumptions position_line_col_prefix.
 
 (* The specification function last_line is what its name says: the suffix after the last break. *)
 Theorem last_line_characterised :
